@@ -98,6 +98,42 @@ def gen(rng, tier, n):
             keys = [rng.choice("abc") for _ in range(rng.choice([1, 2]))] + [rng.choice(["ctrl-a", "ctrl-a", "ctrl-b"])] + ["ctrl-t", "enter", "ctrl-c"]
             yield "K|%s|%s|%s" % (",".join(opts), ",".join(enc(i) for i in items), " ".join(enc(x) for x in keys))
             continue
+        if rng.random() < 0.10:
+            # directed: field placeholders under a non-default --delimiter, with and without --with-nth, in an execute binding AND
+            # in the preview command (both are expanded by the Model: the same placeholder must name the same field of the
+            # ORIGINAL line in both); no query is typed, so the list is the input in input order
+            lines = []
+            for _ in range(rng.choice([2, 3, 4])):
+                lines.append(",".join("".join(rng.choice(["a", "b", "c", "x", " ", "'", ";", "1"]) for _ in range(rng.randint(1, 3))).strip() or "z"
+                                      for _ in range(rng.choice([2, 3, 3]))))
+            opts = ["d=" + enc(","), "pv=" + enc(rng.choice(["echo PV {2} {}", "echo PV {1} {n} {-1}", "echo PV {2..} {q}"])),
+                    "bind=" + enc("f2:execute-silent(%s)" % rng.choice(["echo EX {2} {}", "echo EX {1} {} {-1}", "echo EX {} {n} {2..}"]))]
+            if rng.random() < 0.5:
+                opts.append("wn=" + enc(rng.choice(["2..", "2", "1,3"])))
+            if rng.random() < 0.3:
+                opts.append("multi")
+            keys = ["ctrl-p"] * rng.choice([0, 1, 2]) + ["f2"] + (["ctrl-p", "f2"] if rng.random() < 0.4 else []) + ["enter", "ctrl-c"]
+            yield "K|%s|%s|%s" % (",".join(opts), ",".join(enc(i) for i in lines), " ".join(enc(x) for x in keys))
+            continue
+        if rng.random() < 0.06:
+            # directed: --history (which binds ctrl-p / ctrl-n to the history actions by default) together with a user --bind of
+            # ctrl-p or ctrl-n: the user's chain replaces that default as it replaces any other
+            k = rng.choice(["ctrl-p", "ctrl-n"])
+            opts = ["hist=" + "+".join(enc(rng.choice(WORDS)) for _ in range(rng.randint(1, 3))), "pq"] + \
+                   ([] if rng.random() < 0.3 else ["bind=" + enc("%s:%s" % (k, rng.choice(["accept", "accept(h)", "toggle+accept", "abort"])))])
+            items = [rng.choice(WORDS) for _ in range(rng.choice([2, 3]))]
+            keys = [rng.choice(["ctrl-p", "ctrl-n", k, k]), "enter", "ctrl-c"]
+            yield "K|%s|%s|%s" % (",".join(opts), ",".join(enc(i) for i in items), " ".join(enc(x) for x in keys))
+            continue
+        if rng.random() < 0.06:
+            # directed: duplicate lines, several of them selected, accept: every selected ITEM is returned (items are identified by
+            # their position in the input, not by their text)
+            w = rng.choice(WORDS)
+            items = [w, rng.choice(WORDS), w] + ([w] if rng.random() < 0.5 else [])
+            opts = ["multi", "bind=" + enc("ctrl-t:" + rng.choice(["select-all+accept", "toggle-all+accept", "select-all"]))]
+            keys = ["ctrl-t", "enter", "ctrl-c"]
+            yield "K|%s|%s|%s" % (",".join(opts), ",".join(enc(i) for i in items), " ".join(enc(x) for x in keys))
+            continue
         if rng.random() < 0.05:
             # directed: one key both bound (--bind) and expected (--expect): pressing it ends the session with an accept naming it
             k = rng.choice(["ctrl-x", "alt-a", "f1"])
@@ -184,6 +220,7 @@ def run_one(case, slow=1.0):
     p = case.split("|")
     opts = [o for o in p[1].split(",") if o]
     args = [core.SK_BIN, "--no-sort"]
+    histfiles = []
     for o in opts:
         if o == "multi":
             args.append("--multi")
@@ -197,6 +234,19 @@ def run_one(case, slow=1.0):
             args += ["--bind", dec(o[5:])]
         elif o.startswith("q="):
             args += ["-q", dec(o[2:])]
+        elif o.startswith("d="):
+            args += ["-d", dec(o[2:])]
+        elif o.startswith("hist="):
+            import tempfile as _tf
+            hf = _tf.NamedTemporaryFile(prefix="verif-hist-", suffix=".txt", delete=False, mode="w")
+            hf.write("".join(dec(e) + "\n" for e in o[5:].split("+") if e))
+            hf.close()
+            histfiles.append(hf.name)
+            args += ["--history", hf.name]
+        elif o.startswith("wn="):
+            args += ["--with-nth", dec(o[3:])]
+        elif o.startswith("pv="):
+            args += ["--preview", dec(o[3:])]
     items = [dec(t) for t in p[2].split(",") if t]
     keys = [dec(t) for t in p[3].split() if t]
     master, slave = pty.openpty()
@@ -260,8 +310,17 @@ def run_one(case, slow=1.0):
             execs = [l.strip() or "-" for l in open(logf.name).read().split("\n")[:-1]]
         except OSError:
             execs = ["error"]
-        return "rc=%s out=%s exec=%s" % (rc, out.hex(), ",".join(execs) or "_")
+        # commands of the preview pane (their template starts with `echo PV`) are kept apart: only the LAST one is judged (earlier
+        # requests may legitimately have been overtaken)
+        pvs = [e for e in execs if e.startswith(b"echo PV".hex())]
+        execs = [e for e in execs if not e.startswith(b"echo PV".hex())]
+        return "rc=%s out=%s exec=%s pv=%s" % (rc, out.hex(), ",".join(execs) or "_", pvs[-1] if pvs else "_")
     finally:
+        for hfn in histfiles:
+            try:
+                os.unlink(hfn)
+            except OSError:
+                pass
         try:
             os.unlink(logf.name)
         except (OSError, NameError):
